@@ -10,7 +10,7 @@ PID = 'C01'
 RULE = ('structured byte strings (mode-shaped alphabets mixed at run boundaries, macro envelopes, capacity-boundary lengths) x '
         'symbol lists (default, all, random subsets, pairs, singletons) x mode subsets (all 63, half of them without ASCII) x '
         'macros x FNC1; each case is encoded, its data codewords decoded and its rendered symbol decoded; '
-        'non-trivial = encoding succeeded on a non-empty input; plus three deterministic families: capacity boundaries complete for the small symbols (every alphabet x every length delta x every tail kind, with/without FNC1 start, with the single symbol of that capacity alone in the list), codec constants (Base256 runs of 248..252 / 499..501 / 1554..1555 bytes, every alphabet border byte in every context), every non-empty mode subset x {FNC1, ECI, macro, none} prefix; and the regression corpus of minimised former witnesses')
+        'non-trivial = encoding succeeded on a non-empty input; plus three deterministic families: capacity boundaries complete for the small symbols (every alphabet x every length delta x every tail kind, with/without FNC1 start, with the single symbol of that capacity alone in the list), codec constants (Base256 runs of 248..252 / 499..501 / 1554..1555 bytes, every alphabet border byte in every context), every non-empty mode subset x {FNC1, ECI, macro, none} prefix; long inputs of one kind (lengths around 16, 64, 256, 1024) with one byte of another kind at the power-of-two offsets; and the regression corpus of minimised former witnesses')
 THEOREMS = 'C01_symbol_layer, C01_routes_agree, C01_ascii_plan_roundtrip, C01_ascii_only_roundtrip, C01_base256_only_roundtrip'
 ASSUMPTIONS = ['the sort order of remove_hopeless_cases is taken from the implementation (hook trace) and validated as a sorted permutation']
 
@@ -21,6 +21,7 @@ def gen_cases(rng, tier, ctx):
     cs += gen.boundary_cases(rng, tier, per_cap=2 if tier == 'quick' else 6, op='rt')
     cs += gen.constant_cases(rng, tier, op='rt')
     cs += [c for c in gen.limit_cases(rng, tier, op='rt') if c['cfg']['eci'] is None]
+    cs += gen.block_border_cases(rng, tier, op='rt')
     cs += corpus.encoder_cases('rt')
     cs += [c for c in gen.prefix_cases(rng, tier, op='rt') if c['cfg']['eci'] is None]   # decode_data rejects ECI by design
     return cs
